@@ -197,7 +197,7 @@ def bounded_passthrough(reg, tier, seed):
         tmpls = tmpls[:200]
 
     def fail(what, inp):
-        if len(failures) < 5:
+        if sum(1 for f in failures if f["key"] == "passthrough/bounded") < 5:
             failures.append({"key": "passthrough/bounded", "clause": what, "input": inp, "observed": what})
 
     from hippolyzer.lib.base.message.message import Message as _BadM, Block as _BadB
@@ -367,6 +367,26 @@ def bounded_passthrough(reg, tier, seed):
                                      f"re-encodes with {out[-4:].hex()} in that field", "input": {"datagram": data.hex(), "order": order}, "observed": out.hex()})
             except Exception as e:  # noqa
                 fail(f"F32 field with wire bytes {pattern}: {order} raised {e!r}", {"datagram": data.hex(), "order": order})
+    # a packed rotation travels as three F32; nothing obliges a peer to send a triple of length <= 1 (patched on the wire: the library's
+    # own Quaternion constructor is not asked what it would have produced)
+    import struct as _struct
+    for triple in ((0.0, 0.0, 1.0), (0.5, 0.5, 0.5), (0.6, 0.8, 0.02), (0.0, 0.0, 1.0002), (0.6, 0.8, 0.001), (0.70710683, 0.70710683, 0.0),
+                   (1.0, 1e-3, 0.0), (3.0, -4.0, 12.0), (1.0, 1.0, 0.0), (-0.6, 0.8, 0.0005), (0.57735032, 0.57735032, 0.57735032)):
+        m = Message("ObjectRotation", Block("AgentData", AgentID=_uuid.UUID(int=0x0102030405060708090a0b0c0d0e0f10), SessionID=_uuid.UUID(int=0x1112131415161718191a1b1c1d1e1f20)),
+                    Block("ObjectData", ObjectLocalID=7, Rotation=(0.0, 0.0, 0.0, 1.0)), packet_id=8)
+        data = bytearray(ser.serialize(m))
+        data[-12:] = _struct.pack("<fff", *triple)
+        data = bytes(data)
+        for order in ("never", "blocks", "eager"):
+            evals += 1
+            seen.add(("quat-triple", triple, order))
+            try:
+                out, _ = reencode(data, order)
+                if out != data:
+                    fail(f"LLQuaternion field with wire triple {triple}: after {order} the datagram re-encodes with "
+                         f"{_struct.unpack('<fff', out[-12:])} in that field", {"datagram": data.hex(), "order": order})
+            except Exception as e:  # noqa
+                fail(f"LLQuaternion field with wire triple {triple}: {order} raised {e!r}", {"datagram": data.hex(), "order": order})
     return {"name": "passthrough-fidelity", "evaluations": evals, "distinct_nontrivial": len(seen),
             "rule": f"{len(tmpls)} templates: encoder output, then non-canonically re-zero-coded / truncated / extended / bit-flipped bodies that "
                     "the header parser still accepts x inspection orders {never, header only, lazy blocks, eager, failing lazy blocks}; "
